@@ -98,6 +98,11 @@ CHECKS['C14'] = ('every composition with <=7 (quick) / <=12 (thorough, 18563) at
                  '(sorted, max/sum normalisation, lightest peak = monoisotopic mass incl. e/p/n, mean = average mass, '
                  'neutron view = mass view binned, merge adds) on a count grid up to 200 atoms incl. fractional counts, '
                  'labelled elements, Se/Cl/Br/Fe x 7 option axes at deviation<=2', 'DESIGN.md section 4 / C14')
+CHECKS['C15'] = ('compositions of <=3 (quick) / <=4 (thorough) terms over 18 confusable keys (C/Ce/e, H/He, N/n/Na, p/P, D, T, 13C, '
+                 '2H, 15N, ...) x 11 counts (negative, zero, fractional, 500) x 3 separators x Hill order: write/parse round '
+                 'trip and mass against the frozen table; every element and two isotopes of the table; additivity over all '
+                 'ordered pairs of ~60 written formulas; glycans: all names/synonyms, ordered pairs/triples of 12 prefix-'
+                 'confusable names x counts with an own all-tokenizations enumerator', 'DESIGN.md section 4 / C15')
 NOT_APPLICABLE = {}
 
 
